@@ -694,12 +694,13 @@ Proof.
   pose proof (lstep_ok k g n (s_sh st) (t_pc th) Ti Hnm) as LO.
   assert (Hrc : forall sh' res, lstep k g n (s_sh st) (t_pc th) = (sh', inr res) ->
             match result_cell n (s_sh st) (t_pc th) with
-            | Some c => res = RErr \/ bound sh' n c
+            | Some c => (forall tr, res <> ROk tr) \/ bound sh' n c
             | None => True
             end).
   { intros sh' res E. destruct (t_pc th) eqn:Ep; cbn [result_cell]; try exact Logic.I; cbn [tinv] in Ti.
     - cbn [lstep] in E. destruct (lookup (cmap (s_sh st)) n) as [c|] eqn:Elk; [|inversion E].
-      destruct (cell_to (s_sh st) c); inversion E; subst; [right; exact Elk | left; reflexivity].
+      destruct (cell_to (s_sh st) c); inversion E; subst; [right; exact Elk|].
+      left. intros tr. destruct (existsb (Nat.eqb c) (failed _)); discriminate.
     - cbn [lstep] in E. inversion E; subst. right. apply Ti. }
   destruct (lstep k g n (s_sh st) (t_pc th)) as [sh' [p'|res]] eqn:El'.
   - (* the call goes on *)
@@ -719,6 +720,7 @@ Proof.
     { intros tail. unfold fin_events. destruct res; cbn [app].
       - rewrite (drun_two _ _ _ _ (acc_rd_reg _ _ _ _ R1) (acc_wr_map _ _ _ _ R1)).
         apply (drun_one _ _ _ (acc_wr_reg _ _ _ _ R1)).
+      - apply (drun_one _ _ _ (acc_wr_reg _ _ _ _ R1)).
       - apply (drun_one _ _ _ (acc_wr_reg _ _ _ _ R1)). }
     rewrite Hfin.
     destruct R1 as [H1 H2 H3 H4 _ _].
@@ -726,9 +728,9 @@ Proof.
     set (ds2 := mkD None (d_written ds1) (d_vis ds1)).
     assert (Hobs : forall tail, drun ds2 (obs_events k t res sh' (result_cell n (s_sh st) (t_pc th)) ++ tail)
                                 = drun ds2 tail).
-    { intros tail. unfold obs_events. destruct res as [|tr]; [reflexivity|].
+    { intros tail. unfold obs_events. destruct res as [| |tr]; [reflexivity | reflexivity|].
       destruct (result_cell n (s_sh st) (t_pc th)) as [c|]; [|reflexivity].
-      destruct Hrc as [E|Bc]; [discriminate E|].
+      destruct Hrc as [E|Bc]; [exfalso; exact (E tr eq_refl)|].
       destruct LO as [(_ & W' & _) | (E & _)]; [|discriminate E].
       apply drun_obs. intros x Hx. cbn [ds2 d_vis]. apply H3. apply H2.
       eapply obs_cells_linked; eauto. }
